@@ -23,6 +23,7 @@ import (
 type c15lExp struct {
 	exported, shuts, flushes, afterSD int
 	bodies                           map[string]int // body of every exported record (bodies are unique per Emit)
+	honourCtx                        bool           // Shutdown / ForceFlush report an ended context (after doing their work)
 }
 
 func (e *c15lExp) Export(_ context.Context, rs []Record) error {
@@ -38,8 +39,20 @@ func (e *c15lExp) Export(_ context.Context, rs []Record) error {
 	}
 	return nil
 }
-func (e *c15lExp) Shutdown(context.Context) error   { e.shuts++; return nil }
-func (e *c15lExp) ForceFlush(context.Context) error { e.flushes++; return nil }
+func (e *c15lExp) Shutdown(ctx context.Context) error {
+	e.shuts++
+	if e.honourCtx {
+		return ctx.Err()
+	}
+	return nil
+}
+func (e *c15lExp) ForceFlush(ctx context.Context) error {
+	e.flushes++
+	if e.honourCtx {
+		return ctx.Err()
+	}
+	return nil
+}
 
 type c15lProc struct {
 	emits, shuts, flushes, afterSD int
@@ -58,7 +71,7 @@ func (p *c15lProc) ForceFlush(context.Context) error { p.flushes++; return nil }
 // EmitOld: logger obtained before everything else; EmitNew: lp.Logger("new") now; EmitReget:
 // lp.Logger("old") asked for again now (a scope the provider has handed out before)
 var c15lOps = []string{"EmitNew", "EmitOld", "EmitReget", "Flush", "Shutdown", "ShutdownC"}
-var c15lVariants = []string{"rec", "simple(E)", "simple(nil)", "batch(E)", "batch(nil)"}
+var c15lVariants = []string{"rec", "simple(E)", "simple(nil)", "batch(E)", "batch(nil)", "simple(Ectx)"} // Ectx: an exporter that reports an ended context
 
 func c15lSeq(variant string, ops []string) func(x *sched.Exec) {
 	return func(x *sched.Exec) {
@@ -67,6 +80,9 @@ func c15lSeq(variant string, ops []string) func(x *sched.Exec) {
 		var proc Processor = rec
 		switch variant {
 		case "simple(E)":
+			proc = NewSimpleProcessor(exp)
+		case "simple(Ectx)":
+			exp.honourCtx = true
 			proc = NewSimpleProcessor(exp)
 		case "simple(nil)":
 			proc = NewSimpleProcessor(nil)
@@ -85,7 +101,7 @@ func c15lSeq(variant string, ops []string) func(x *sched.Exec) {
 			switch variant {
 			case "rec":
 				return rec.shuts
-			case "simple(E)", "batch(E)":
+			case "simple(E)", "batch(E)", "simple(Ectx)":
 				return exp.shuts
 			}
 			return -1 // not observable
@@ -119,7 +135,7 @@ func c15lSeq(variant string, ops []string) func(x *sched.Exec) {
 					if variant == "rec" && rec.emits != e0+1 {
 						x.Fail("C15|record-not-delivered-to-the-registered-processor", "processor OnEmit called %d times for one Emit (%s)", rec.emits-e0, where(i))
 					}
-					if variant == "simple(E)" && exp.exported != x0+1 {
+					if (variant == "simple(E)" || variant == "simple(Ectx)") && exp.exported != x0+1 {
 						x.Fail("C15|simple-processor-did-not-export|logs", "simple processor exported %d records for one Emit (%s)", exp.exported-x0, where(i))
 					}
 				}
@@ -171,6 +187,9 @@ func c15lSeq(variant string, ops []string) func(x *sched.Exec) {
 					// the provider's Shutdown ran out of time: the batch processor shut the exporter down while
 					// an export was still queued in its buffer
 					class = "|after a Shutdown that was cut short by its context"
+					if !strings.HasPrefix(variant, "batch") {
+						class = "|" + variant + class
+					}
 				}
 				x.Fail("C15|export-after-exporter-shutdown|logs"+class, "exporter received records after its Shutdown (%s)", where(i))
 			}
